@@ -58,7 +58,8 @@ def step_type(state, name, kw=None):
     if name == "AddEnclosingMiddleware":
         if (kw or {}).get("reuse_previous_enclosing"):
             return (a if a == "str" else "unknown", m if m == "str" else "unknown")
-        return ("str", "str")
+        # with enclose_integers=False an int month (numeric field) is deliberately left as it is
+        return ("str", "str" if (kw or {}).get("enclose_integers", True) or m == "str" else "unknown")
     if "unknown" in state and name in ("SeparateCoAuthors", "SplitNameParts", "MergeNameParts", "MergeCoAuthors", "RemoveEnclosingMiddleware"):
         return None
     if name == "SeparateCoAuthors":
